@@ -28,6 +28,9 @@ fn full_vocab() -> Vec<String> {
         // 16 (streams, category codes), 128, 256 (u8, \\toks), 4096, 16384 (pt), 32768 (registers, \\mathcode),
         // the surrogate block 55296..57343, char::MAX = 1114111, 2^30 (sp), 2^31
         "17", "127", "128", "129", "257", "4095", "4096", "4097", "16383", "16384", "16385", "32769", "55295", "55297", "57343", "57344", "57345", "1114110", "1073741823", "1073741824", "1073741825", "2147483646",
+        // 3- and 4-byte characters, a control symbol made of one, the predefined \\outer and empty macros (see
+        // setup_vm), the names of the empty and the blank-only file
+        "→", "𝔸", "\\→", "\\o", "\\e", "e", "w",
         // numbers whose length is the hazard: 17 / 18 / 19 / 30 fraction digits, 21 integer digits,
         // octal and hexadecimal constants at and beyond 2^31-1
         "1.12345678901234567", "1.123456789012345678", ".9999999999999999999pt", "0.123456789012345678901234567890", "100000000000000000000", "'17777777777", "'20000000000", "'777777777777", "\"7FFFFFFF", "\"80000000", "\"FFFFFFFFF",
@@ -39,7 +42,7 @@ fn full_vocab() -> Vec<String> {
 fn core_vocab() -> Vec<String> {
     [
         "\\count", "\\dimen", "\\skip", "\\toks", "\\the", "\\def", "\\let", "\\global", "\\advance", "\\multiply", "\\divide", "\\catcode", "\\chardef", "\\countdef", "\\ifnum", "\\ifcase", "\\else", "\\fi", "\\or", "\\expandafter", "\\noexpand",
-        "\\read", "\\input", "\\openin", "\\ifeof", "\\endinput", "\\a", "{", "}", "#", "1", "-", "=", " ", "2147483647", "f", "by", "to", "pt", "é", "1.123456789012345678", "-2147483647", "57343",
+        "\\read", "\\input", "\\openin", "\\ifeof", "\\endinput", "\\a", "{", "}", "#", "1", "-", "=", " ", "2147483647", "f", "by", "to", "pt", "é", "1.123456789012345678", "-2147483647", "57343", "\\o", "\\e",
     ]
     .iter()
     .map(|s| s.to_string())
@@ -164,7 +167,7 @@ fn extreme_programs() -> Vec<String> {
 }
 /// Multi-byte text placed before (earlier lines, same line), and after (same line, later lines) a program:
 /// (text in front of the program, text behind it). The mode prefix stays in front of everything.
-const WRAPPERS: [(&str, &str); 10] = [
+const WRAPPERS: [(&str, &str); 16] = [
     ("é\n", ""),
     ("éé\n", ""),
     ("→\n", ""),
@@ -175,6 +178,13 @@ const WRAPPERS: [(&str, &str); 10] = [
     ("", "→"),
     ("é\n→ ", "é\n"),
     ("𝔸\n\n→→→\n", "\n"),
+    // endings and beginnings (ASCII): as is, final newline, CR LF, blank lines after, blank line before, inside a group
+    ("", ""),
+    ("", "\n"),
+    ("", "\r\n"),
+    ("", "\n\n \n"),
+    ("\n", ""),
+    ("{", ""),
 ];
 fn mini_vocab() -> Vec<String> {
     ["\\the", "\\def", "\\a", "{", "}", "#", "1", "-", "2147483647", "é", "\\fi", "\\read"].iter().map(|s| s.to_string()).collect()
@@ -227,6 +237,24 @@ fn seeds() -> Vec<String> {
         r"\count 1=-1073741824 \multiply\count 1 by 2 \divide\count 1 by -1 ",
         r"\newIntArray\m 4 \let\b=\m \b 2=5 \the\b 2 ",
         r"\ifcase -2147483647 a\or b\or c\else d\fi \ifcase 2147483647 a\or b\fi",
+        // the same thing again / empty things
+        r"\def\a{}\def\a{}\a \let\a=\a \a \gdef\a{}\a",
+        r"\openin 1 f \openin 1 f \closein 1 \closein 1 \closein 15 \ifeof 15 a\fi",
+        r"{}{{}}\toks 1={}\the\toks 1 \count 1=\count 1 \catcode `a=11 \endlinechar=\endlinechar ",
+        r"\input e \input w a\input e ",
+        // a second instance of a kind
+        "\\openin 1 f \\openin 2 g \\read 2 to\\a \\read 1 to\\b \\a\\b \\ifeof 2 x\\fi ",
+        r"\newIntArray\m 2 \newIntArray\n 3 \n 2=1 \m 1=2 \newInt\p \newInt\q \q=\n 2 \the\q \m 3=1 ",
+        r"\newIntArray\m 4 \m 3=1 \m 4=1 ",
+        // prefixes in every order and combination
+        r"\global\long\outer\def\a#1{#1}\outer\global\long\gdef\b{}\long\global\outer\def\c{}\a\b",
+        r"\long\global\count 1=2 \global\global\advance\count 1 by 1 \outer\count 1=1 \global\let\a=\b \long\let\a=\b ",
+        r"\def\a#1#2{(#1#2)}\def\b{x}\def\c{y}\expandafter\expandafter\expandafter\a\expandafter\b\c",
+        // infinite orders other than fil
+        r"\skip 1=1pt plus 2fill minus 3filll \advance\skip 1 by \skip 1 \multiply\skip 1 by -2 \divide\skip 1 by 3 \the\skip 1 ",
+        // faults inside collecting loops: \outer macro and \par in parameter text, argument, skipped branch, token list
+        r"\def\a#1{#1}\a{x\o y}\a\o \iffalse\o\fi \toks 1={\o}\def\b#1\o{}\def\c{\o}",
+        r"\def\a#1{#1}\a{x\par y}\def\b#1.{#1}\b x\par.\iffalse\par\fi ",
     ] {
         v.push(s.to_string());
     }
@@ -352,6 +380,7 @@ impl Families {
             "seed-dev2" => *self.dev2_cum.last().unwrap(),
             "resource" => self.resource.len() as u64 * 4,
             "nonascii-lines" => (vcore::strings_upto(self.core.len() as u64, self.lines_core_len) + self.lines_trunc_cum.last().unwrap()) * WRAPPERS.len() as u64 * 4,
+            "stdlib-state" => self.lines_trunc_cum.last().unwrap() * 4,
             "extreme-arith" => self.extreme.len() as u64 * 4,
             "extreme-arith-dev1" => *self.extreme_cum.last().unwrap(),
             _ => 0,
@@ -405,6 +434,14 @@ impl Families {
                 };
                 (mode, format!("{}{}{}", w.0, body, w.1))
             }
+            "stdlib-state" => {
+                let j = idx / 4;
+                let sd = match self.lines_trunc_cum.binary_search(&j) {
+                    Ok(i) => i,
+                    Err(i) => i - 1,
+                };
+                ((idx % 4) as usize, join(&self.seeds[sd][..=(j - self.lines_trunc_cum[sd]) as usize]))
+            }
             "extreme-arith" => ((idx % 4) as usize, join(&self.extreme[(idx / 4) as usize])),
             "extreme-arith-dev1" => {
                 let e = match self.extreme_cum.binary_search(&idx) {
@@ -449,7 +486,14 @@ fn setup_vm() -> Box<vtex::Vm> {
         fs.add("f.tex", "a{\nb}\n\\x");
         fs.add("g.tex", "é\\endinput z\n}");
         fs.add("a.tex", "\\input a");
+        fs.add("e.tex", "");
+        fs.add("w.tex", " \n\n  \n");
     }
+    // two macros exist before every program: an \outer one and an empty one
+    let _ = vtex::run(&mut vm, "\\outer\\def\\o{}\\def\\e{}");
+    vm.clear_sources();
+    vm.state.env.steps.set(0);
+    vm.state.env.errs.set(0);
     for (name, f) in [("fa", 1u32), ("fb", 2u32)] {
         if let Some(cs) = vm.cs_name_interner().get(name) {
             vm.state.env.font_names.borrow_mut().insert(f, token::CommandRef::ControlSequence(cs));
@@ -588,6 +632,52 @@ fn run_case(mode: usize, body: &str) -> Verdict {
     }
     v
 }
+/// The same oracle on the repository's own `StdLibState` (no harness hooks: no budgets, real file system
+/// rooted at a directory that does not exist, stdout to the worker's /dev/null), for programs without loops.
+fn run_case_stdlib(mode: usize, body: &str) -> Verdict {
+    use vtex::texlang_stdlib::StdLibState;
+    let src = format!("{}{}", MODES[mode], body);
+    let mut v = Verdict { class: String::new(), fail: None, known: None, cutoff: false, reached_primitive: body.contains('\\'), errors_recovered: 0, nonascii_error: false };
+    let r = vcore::catch(|| {
+        let mut cmds = vtex::texlang_stdlib::built_in_commands::<StdLibState>();
+        cmds.remove("sleep");
+        let mut vm = vtex::texlang::vm::VM::<StdLibState>::new_with_built_in_commands(cmds);
+        vm.working_directory = Some("/nonexistent-c09".into());
+        vm.state.error_mode.set_default_terminal(std::rc::Rc::new(std::cell::RefCell::new(vtex::ScriptTerminal { lines: vec!["t{".into(), "\\fi é".into()], pos: 0 })));
+        let _ = vm.push_source("t.tex", src.clone());
+        match vm.run::<vtex::texlang::vm::DefaultHandlers>() {
+            Ok(()) => None,
+            Err(e) => {
+                let text = format!("{e}");
+                let located = e.token_traces.values().any(|tr| tr.line_number >= 1)
+                    || e.end_of_input_trace.as_ref().map(|tr| tr.line_number >= 1).unwrap_or(false)
+                    || e.error.source_code_trace_override().map(|tr| tr.line_number >= 1).unwrap_or(false)
+                    || e.stack_trace.iter().any(|s| s.trace.line_number >= 1)
+                    || text_shows_location(&text);
+                Some((e.error.title(), text.trim().is_empty(), located))
+            }
+        }
+    });
+    match r {
+        Err(p) => {
+            let (line, rel) = (p.source_line(), p.rel_file());
+            v.class = format!("stdlib-state panic {}", p.site());
+            if let Some((id, _, _)) = KNOWN_SITES.iter().find(|(_, f, l)| rel.ends_with(f) && line.contains(l)) {
+                v.known = Some(id.to_string());
+            } else {
+                v.fail = Some(("success or a located error".into(), p.describe(), "panic (StdLibState)".into()));
+            }
+        }
+        Ok(None) => v.class = "stdlib-state ok".into(),
+        Ok(Some((title, empty, located))) => {
+            v.class = format!("stdlib-state error: {}", generalize(&title));
+            if empty || !located {
+                v.fail = Some(("an error that carries a source location and renders to non-empty text".into(), format!("{}: {title}", if empty { "EMPTY-RENDERING" } else { "NOT-LOCATED" }), "error is not located / does not render (StdLibState)".into()));
+            }
+        }
+    }
+    v
+}
 /// Error titles with their variable parts removed (keeps the number of outcome classes bounded).
 fn generalize(title: &str) -> String {
     let mut out = String::new();
@@ -652,8 +742,24 @@ fn worker(family: &str, lo: u64, hi: u64, progress: &str, quick: bool) -> ! {
                     }
                 }
                 let (mode, body) = fams.program(&family, idx);
-                let v = run_case(mode, &body);
+                let v = if family == "stdlib-state" { run_case_stdlib(mode, &body) } else { run_case(mode, &body) };
                 w.evals += 1;
+                // vacuity counters, from the program text
+                for (name, hit) in [
+                    ("program_has_3_byte_char", body.chars().any(|c| c.len_utf8() == 3)),
+                    ("program_has_4_byte_char", body.chars().any(|c| c.len_utf8() == 4)),
+                    ("program_uses_outer_macro", body.contains("\\o ") || body.ends_with("\\o")),
+                    ("program_uses_empty_macro", body.contains("\\e ")),
+                    ("program_ends_with_newline", body.ends_with('\n')),
+                    ("program_has_cr_lf", body.contains("\r\n")),
+                    ("program_starts_inside_a_group", body.starts_with('{')),
+                    ("program_on_stdlib_state", family == "stdlib-state"),
+                    ("program_reads_empty_or_blank_file", body.contains("\\input e") || body.contains("\\input w")),
+                ] {
+                    if hit {
+                        *w.counters.entry(name.into()).or_insert(0) += 1;
+                    }
+                }
                 if v.reached_primitive {
                     w.nontrivial += 1;
                 }
@@ -1002,8 +1108,9 @@ fn main() {
     let (nf, nc) = (fams.full.len(), fams.core.len());
     run_family(&mut ctx, &fams, "short-full", &format!("every string of <= {} tokens over the full vocabulary ({nf} tokens: every installed primitive, braces, specials, numbers at every limit, non-ASCII) x 4 interaction modes", fams.short_full_len));
     run_family(&mut ctx, &fams, "short-core", &format!("every string of <= {} tokens over a {nc}-token core (registers, \\the, definitions, conditionals, \\expandafter, \\read/\\input) x 4 interaction modes", fams.short_core_len));
-    run_family(&mut ctx, &fams, "seed-dev1", &format!("{} seeds (the repository's all_error_cases + 32 idioms), unchanged and with every single deletion / substitution / insertion of a token from a {}-token vocabulary at every position, x 4 interaction modes", fams.seeds.len(), fams.dev1_vocab.len()));
-    run_family(&mut ctx, &fams, "nonascii-lines", &format!("every core string of <= {} tokens and every non-empty truncation of every seed (the input ends inside the construct that is open there), each wrapped in {} placements of multi-byte text (2-, 3- and 4-byte characters on one or several earlier lines, earlier on the same line, later on the same line, on later lines) x 4 interaction modes", fams.lines_core_len, WRAPPERS.len()));
+    run_family(&mut ctx, &fams, "seed-dev1", &format!("{} seeds (the repository's all_error_cases + 45 idioms), unchanged and with every single deletion / substitution / insertion of a token from a {}-token vocabulary at every position, x 4 interaction modes", fams.seeds.len(), fams.dev1_vocab.len()));
+    run_family(&mut ctx, &fams, "nonascii-lines", &format!("every core string of <= {} tokens and every non-empty truncation of every seed (the input ends inside the construct that is open there), each wrapped in {} placements: multi-byte text (2-, 3- and 4-byte characters on one or several earlier lines, earlier on the same line, later on the same line, on later lines) and plain endings / beginnings (as is, final newline, CR LF, trailing blank lines, leading blank line, inside an unclosed group) x 4 interaction modes", fams.lines_core_len, WRAPPERS.len()));
+    run_family(&mut ctx, &fams, "stdlib-state", "every non-empty truncation of every seed x 4 interaction modes on the repository's own StdLibState with DefaultHandlers (the glue layer named in the property's file list; no harness hooks)");
     run_family(&mut ctx, &fams, "extreme-arith", &format!("{} programs x 4 interaction modes: a \\count, a \\dimen, and the width / stretch / shrink of a \\skip driven to exactly -2^31 and to 2^31-1 by \\advance wrap-around, then every arithmetic primitive with each operand of -1, 0, 1, 2, 2^31-1, -2^31 (from another register), and 29 coercion contexts (assignments with signs, fractions and units, glue components, conditionals, \\the, register indices, operands of \\advance/\\multiply/\\divide on other registers)", fams.extreme.len()));
     run_family(&mut ctx, &fams, "extreme-arith-dev1", &format!("the same {} programs with every single deletion / substitution / insertion of a token from a {}-token vocabulary at every position, scroll mode", fams.extreme.len(), fams.extreme_vocab.len()));
     run_family(&mut ctx, &fams, "resource", &format!("{} fixed programs x 4 interaction modes: an 8.6 GB \\newIntArray, runaway recursion (doubling, nested groups), 20000 nested groups / \\expandafter / \\iftrue, a 100000-character line, a 5000-digit number, a 50000-token macro body", fams.resource.len()));
@@ -1015,6 +1122,19 @@ fn main() {
     ctx.require("errors_recovered_scroll", "a run in scroll mode recovered from at least one error");
     ctx.require("errors_recovered_nonstop", "a run in nonstop mode recovered from at least one error");
     ctx.require("errors_recovered_batch", "a run in batch mode recovered from at least one error");
+    for (c, m) in [
+        ("program_has_3_byte_char", "a 3-byte character in the program"),
+        ("program_has_4_byte_char", "a 4-byte character in the program"),
+        ("program_uses_outer_macro", "the predefined \\outer macro \\o occurs"),
+        ("program_uses_empty_macro", "the predefined empty macro \\e occurs"),
+        ("program_ends_with_newline", "the input ends with a newline"),
+        ("program_has_cr_lf", "CR LF line ending"),
+        ("program_starts_inside_a_group", "the whole program runs inside an unclosed group"),
+        ("program_on_stdlib_state", "a run on the repository's StdLibState"),
+        ("program_reads_empty_or_blank_file", "\\input of an empty / blank-only file"),
+    ] {
+        ctx.require(c, m);
+    }
     ctx.require("errors_on_non_ascii_lines", "an error was raised on a line that contains a non-ASCII character");
     ctx.finish("every token string within the stated length over the stated vocabulary, and every single deviation of every seed, each in the stated interaction modes (non-trivial = the program contains a control sequence); outcome classes are error titles with numbers generalised");
 }
